@@ -387,6 +387,19 @@ func runC11(c *Ctx) {
 	for _, kind := range kindNames {
 		for b := 0; b < basesPerKind; b++ {
 			cl, s := g.newClaims(kind)
+			if gc, ok := cl.(*jwt.GenericClaims); ok {
+				// free-form data with members named like the sections the library itself reads (nats, type, tags, version),
+				// as objects: the single-node mutations then turn each into every other JSON shape
+				if gc.Data == nil {
+					gc.Data = map[string]interface{}{}
+				}
+				gc.Data["nats"] = map[string]interface{}{"type": "inner", "k": "v"}
+				gc.Data["tags"] = []interface{}{"t"}
+				if b%2 == 0 {
+					delete(gc.Data, "type")
+					gc.Data["nats"] = map[string]interface{}{"k": "v"}
+				}
+			}
 			if ac, ok := cl.(*jwt.AccountClaims); ok {
 				ac.Exports.Add(&jwt.Export{Subject: "e1.>", Type: jwt.Stream}, &jwt.Export{Subject: "e2", Type: jwt.Service, Latency: &jwt.ServiceLatency{Sampling: 5, Results: "r"}},
 					&jwt.Export{Subject: "e3.*.x", Type: jwt.Stream, AccountTokenPosition: 2, ResponseThreshold: 5})
